@@ -200,6 +200,10 @@ pub mod boundary {
                 )
             };
 
+            #[cfg(feature = "verif-hooks")]
+            crate::verif::slice_use(this.as_ptr() as usize, std::mem::size_of::<T::Transformed>(), "List::eq#this");
+            #[cfg(feature = "verif-hooks")]
+            crate::verif::slice_use(other.as_ptr() as usize, std::mem::size_of::<T::Transformed>(), "List::eq#other");
             this == other
         }
     }
@@ -344,6 +348,8 @@ pub mod boundary {
                 )
             };
 
+            #[cfg(feature = "verif-hooks")]
+            crate::verif::slice_use(slice.as_ptr() as usize, std::mem::size_of::<T::Transformed>(), "List::to_vec");
             slice
                 .iter()
                 .map(|elem| T::untransform(elem.clone()))
